@@ -59,7 +59,10 @@ pub fn gtext(min: usize) -> BoxedStrategy<String> {
         // lengths around the inline capacity of the small-string type (23 bytes) and around powers of two,
         // mostly ASCII so that the byte length is the character count
         2 => (
-            prop_oneof![Just(22usize), Just(23), Just(24), Just(25), Just(31), Just(32), Just(33), Just(63), Just(64), Just(65), Just(66), Just(80)],
+            prop_oneof![
+                4 => select(&[22usize, 23, 24, 25, 31, 32, 33, 63, 64, 65, 66, 80][..]),
+                1 => select(&[127usize, 128, 129, 130, 200, 255, 256, 257, 300][..]),
+            ],
             gchar(),
             prop_oneof![3 => select(ALNUM), 1 => select(CASEY), 1 => select(&['.', '-', '_', '/', ' '][..])],
             0usize..3,
